@@ -204,6 +204,14 @@ func runC07(c *Ctx) {
 			c.Hit("zone:error")
 			c.Pred("hostile", "error-sticky", in, zr.afterErr == 0 && zr.errStable, fmt.Sprint(zr.afterErr, " records after the error; stable=", zr.errStable), "none", nt)
 			c.Pred("hostile", "error-has-position", in, !zr.syntaxErr || strings.Contains(zr.errText, "line:") || strings.Contains(zr.errText, "failed to open"), zr.errText, "file / line / column", nt)
+			if zr.syntaxErr && !strings.Contains(zr.errText, "failed to open") {
+				// the position is one inside a text: lines are counted from 1 (an error reported "at line: 0:0" has lost it)
+				line := -1
+				if k := strings.LastIndex(zr.errText, " at line: "); k >= 0 {
+					fmt.Sscanf(zr.errText[k+len(" at line: "):], "%d:", &line)
+				}
+				c.Pred("hostile", "error-line-counted-from-one", in, line >= 1, zr.errText, "at line: L:C with L >= 1", nt)
+			}
 			if zr.syntaxErr && !strings.Contains(text, "$INCLUDE") {
 				// no other file is involved: the error names the file the parser was given
 				c.Pred("hostile", "error-names-file", in, strings.HasPrefix(zr.errText, "hostile.db: dns: "), zr.errText, "hostile.db: dns: ...", nt)
